@@ -195,9 +195,10 @@ type c12Ctl struct {
 	events   []string
 	oracle   []string
 	tags     map[string]bool
-	kept     map[int]bool      // streams seen in a pool entry
-	evicted  map[int]bool      // streams whose pool entry was deleted by the remove of another object
-	dirBytes map[string][]byte // (flow,dir) -> payload bytes delivered, in event order
+	kept     map[int]bool         // streams seen in a pool entry
+	evicted  map[int]bool         // streams whose pool entry was deleted by the remove of another object
+	tainted  map[interface{}]bool // objects on which a stale assembler (recycled in between) processed a packet
+	dirBytes map[string][]byte    // (flow,dir) -> payload bytes delivered, in event order
 	tpool    *tcpassembly.StreamPool
 	rpool    *reassembly.StreamPool
 	ts       time.Time
@@ -225,6 +226,7 @@ func (ctl *c12Ctl) hook(site string, obj interface{}) {
 			ctl.nconn++
 		} else {
 			ctl.tags["recycle"] = true
+			delete(ctl.tainted, obj)
 			for _, o := range ctl.threads {
 				if o.site == "conn.lock" && o.want == obj {
 					o.recycled = true
@@ -334,8 +336,9 @@ func (ctl *c12Ctl) callback(s *c12Stream, what string) {
 
 func (ctl *c12Ctl) wrongStream(what string) {
 	how := "the connection object was NOT recycled in between"
-	if ctl.threads[ctl.cur].recycled {
-		how = "the connection object was closed, recycled and reset for the other key between this assembler's lookup and its conn.mu.Lock()"
+	held, n := ctl.heldBy(ctl.cur)
+	if ctl.threads[ctl.cur].recycled || (n == 1 && ctl.tainted[held]) {
+		how = "the connection object was closed, recycled and reset for the other key between an assembler's lookup and its conn.mu.Lock()"
 	}
 	ctl.fail("C12:wrong-stream", what+"; "+how)
 }
@@ -549,6 +552,9 @@ func (ctl *c12Ctl) step(t int) bool {
 		if ctl.connLocked(th.want) {
 			ctl.fail("C12:harness-lock-tracking", "a connection mutex is held although no thread is recorded as its owner")
 		}
+		if th.recycled && !closed {
+			ctl.tainted[th.want] = true // a packet of the old connection is about to be processed on the reused object
+		}
 	}
 	th.resume <- struct{}{}
 	select {
@@ -697,7 +703,7 @@ func (ctl *c12Ctl) addThread(prog []c12Op) *c12Thread {
 // phase are kept (for the exhaustive enumeration of schedules).
 func c12Execute(p c12Case, record bool) (*c12Ctl, string) {
 	ctl := &c12Ctl{pkg: p.pkg, back: make(chan c12Msg), owner: map[interface{}]int{}, connID: map[interface{}]int{},
-		tags: map[string]bool{}, kept: map[int]bool{}, evicted: map[int]bool{}, dirBytes: map[string][]byte{},
+		tags: map[string]bool{}, kept: map[int]bool{}, evicted: map[int]bool{}, tainted: map[interface{}]bool{}, dirBytes: map[string][]byte{},
 		ts: time.Unix(1700000000, 0)}
 	if p.pkg == "t" {
 		ctl.tpool = tcpassembly.NewStreamPool(c12TFactory{ctl})
@@ -1046,7 +1052,7 @@ func (c12) Gen(rng *rand.Rand, tier string) []Case {
 				})
 			}
 		}
-		cases = append(cases, Case{ID: "C12-race", Prop: "C12", Ops: []string{"race:3000"}})
+		cases = append(cases, Case{ID: "C12-race", Prop: "C12", Ops: []string{"race:200"}})
 	}
 	return cases
 }
@@ -1081,7 +1087,7 @@ func c12RaceRun(p c12Case) Result {
 				continue
 			}
 			fn := strings.TrimSpace(lines[1])
-			if i := strings.Index(fn, "("); i > 0 {
+			if i := strings.LastIndex(fn, "("); i > 0 {
 				fn = fn[:i]
 			}
 			fn = strings.TrimPrefix(fn, "github.com/gopacket/gopacket/")
